@@ -313,3 +313,137 @@ Example rend_example :
   RendSpec 1 [IIdent "a"; IOp R_add; IIdent "b"; IOp R_multiply; IIdent "c"]
            (EBin Add (EId "a") (EBin Multiply (EId "b") (EId "c"))).
 Proof. apply (C10_parse_sound 20). vm_compute. reflexivity. Qed.
+
+(* ======================================================================================================
+   THE GRAMMAR LAYER.  coq/Peg.v is an executable transcription of pest 2.8.3 (parser_state.rs, stack.rs,
+   position.rs, and how pest_generator compiles rules); coq/gen/Grammar.v is grammar.pest after pest_meta's
+   optimizer, REGENERATED on every run by translate/pest2coq.py; the PEG-tree / PEG-malformed streams of
+   checks/c10.py compare the model's pair tree with `get_pairs` on every generated program text and on
+   mutated texts.  The theorems below are (a) facts about the interpreter for EVERY grammar, (b) the name
+   rules of the regenerated grammar = the specification functions of C10Ident.v, (c) implicit whitespace.
+   Imports are kept inside a module: Peg.v and Grammar.v reuse short names (Ok, Seq, ...). *)
+Require Blots.Peg Blots.gen.Grammar Blots.proofs.PegGeneric Blots.proofs.PegPure Blots.proofs.PegIdent.
+Module PegLayer.
+Import Blots.Peg Blots.gen.Grammar Blots.proofs.PegGeneric Blots.proofs.PegPure Blots.proofs.PegIdent.
+Import Blots.C10Ident Blots.gen.IdentRules.
+
+(* (a1) more fuel never changes a result other than OutOfFuel — every grammar, every rule, every text.
+   (Determinism needs no theorem: [parse] is a function.) *)
+Theorem C10_peg_fuel_monotone : forall (R : Type) (g : grammar R) f f' r text,
+  f <= f' -> parse g f r text <> OutOfFuel -> parse g f' r text = parse g f r text.
+Proof. exact parse_fuel_mono. Qed.
+Check C10_peg_fuel_monotone : forall (R : Type) (g : grammar R) f f' r text,
+  f <= f' -> parse g f r text <> OutOfFuel -> parse g f' r text = parse g f r text.
+Print Assumptions C10_peg_fuel_monotone.
+
+(* (a2) a failing expression leaves position, remaining input and the produced pairs untouched — what
+   pest's `optional`, `repeat` and `or_else`, which do not restore anything, rely on. *)
+Theorem C10_peg_failure_restores : forall (R : Type) (g : grammar R) f m a la e s s',
+  run g f m a la e s = Fail s' -> pos s' = pos s /\ rest s' = rest s /\ out s' = out s.
+Proof. exact run_fail_unchanged. Qed.
+Check C10_peg_failure_restores : forall (R : Type) (g : grammar R) f m a la e s s',
+  run g f m a la e s = Fail s' -> pos s' = pos s /\ rest s' = rest s /\ out s' = out s.
+Print Assumptions C10_peg_failure_restores.
+
+(* (a3) every success consumes a prefix of the remaining input, and the pairs it adds are ordered,
+   nested (children inside parents) and inside the consumed span. *)
+Theorem C10_peg_success_consumes_prefix : forall (R : Type) (g : grammar R) f m a la e s s',
+  run g f m a la e s = Ok s' ->
+  (pos s <= pos s')%N /\ (pos s' + slen (rest s') = pos s + slen (rest s))%N /\
+  (exists k, rest s' = sdrop k (rest s)) /\
+  exists new, out s' = (new ++ out s)%list /\ forest_ok R (pos s) (pos s') (rev new).
+Proof. exact run_spans. Qed.
+Check C10_peg_success_consumes_prefix : forall (R : Type) (g : grammar R) f m a la e s s',
+  run g f m a la e s = Ok s' ->
+  (pos s <= pos s')%N /\ (pos s' + slen (rest s') = pos s + slen (rest s))%N /\
+  (exists k, rest s' = sdrop k (rest s)) /\
+  exists new, out s' = (new ++ out s)%list /\ forest_ok R (pos s) (pos s') (rev new).
+Print Assumptions C10_peg_success_consumes_prefix.
+
+(* (a4) the parser's share of C01 "locations lie inside the text": every pair of every successful parse, of
+   any grammar from any rule, has 0 <= start <= end <= length of the text in bytes, siblings ordered. *)
+Theorem C10_peg_pairs_inside_text : forall (R : Type) (g : grammar R) f r text s',
+  parse g f r text = Ok s' -> forest_ok R 0 (slen text) (rev (out s')) /\ (pos s' <= slen text)%N.
+Proof. exact parse_spans_inside_text. Qed.
+Check C10_peg_pairs_inside_text : forall (R : Type) (g : grammar R) f r text s',
+  parse g f r text = Ok s' -> forest_ok R 0 (slen text) (rev (out s')) /\ (pos s' <= slen text)%N.
+Print Assumptions C10_peg_pairs_inside_text.
+
+(* (b1) the rule `identifier` of the regenerated grammar accepts exactly what C10Ident.identifier (the
+   specification the name theorems are about) accepts, with the same remainder, in every calling context,
+   with fuel = a constant + the number of bytes left. *)
+Theorem C10_peg_identifier_rule : exists n, forall fuel a la s,
+  n + String.length (rest s) <= fuel ->
+  call_with blots_grammar (run blots_grammar fuel) a la PG_identifier s
+  = rule_wrap PG_identifier a la (fun s' => pure_out grule s' (identifier reserved_words (rest s'))) s.
+Proof. exact peg_identifier_call. Qed.
+Check C10_peg_identifier_rule : exists n, forall fuel a la s,
+  n + String.length (rest s) <= fuel ->
+  call_with blots_grammar (run blots_grammar fuel) a la PG_identifier s
+  = rule_wrap PG_identifier a la (fun s' => pure_out grule s' (identifier reserved_words (rest s'))) s.
+Print Assumptions C10_peg_identifier_rule.
+
+Theorem C10_peg_identifier_language : exists n, forall text fuel,
+  n + String.length text <= fuel ->
+  parse blots_grammar fuel PG_identifier text =
+  match identifier reserved_words text with
+  | Some r => Ok (mkst (slen text - slen r) r stack_new [Node PG_identifier 0 (slen text - slen r) []])
+  | None => Fail (init text)
+  end.
+Proof. exact peg_identifier_language. Qed.
+Check C10_peg_identifier_language : exists n, forall text fuel,
+  n + String.length text <= fuel ->
+  parse blots_grammar fuel PG_identifier text =
+  match identifier reserved_words text with
+  | Some r => Ok (mkst (slen text - slen r) r stack_new [Node PG_identifier 0 (slen text - slen r) []])
+  | None => Fail (init text)
+  end.
+Print Assumptions C10_peg_identifier_language.
+
+(* (b2) bool, null, identifier_rest, reserved_word of the regenerated grammar = bool_rule / null_rule /
+   identifier_rest / first_lit of C10Ident.v with the flags of gen/IdentRules.v (two independent translators
+   of grammar.pest meet here), wherever no implicit whitespace is skipped (inside `expression`). *)
+Theorem C10_peg_word_rules : forall a, a <> NonAtomic -> exists n, forall fuel la s,
+  n + String.length (rest s) <= fuel ->
+  run blots_grammar fuel false a la (rd_body (grule_def PG_bool)) s = pure_out grule s (bool_rule bool_boundary (rest s)) /\
+  run blots_grammar fuel false a la (rd_body (grule_def PG_null)) s = pure_out grule s (null_rule null_boundary (rest s)) /\
+  run blots_grammar fuel false a la (Ident PG_identifier_rest) s = pure_out grule s (identifier_rest (rest s)) /\
+  run blots_grammar fuel false a la (Ident PG_reserved_word) s = pure_out grule s (first_lit reserved_words (rest s)).
+Proof. exact peg_word_rules. Qed.
+Check C10_peg_word_rules : forall a, a <> NonAtomic -> exists n, forall fuel la s,
+  n + String.length (rest s) <= fuel ->
+  run blots_grammar fuel false a la (rd_body (grule_def PG_bool)) s = pure_out grule s (bool_rule bool_boundary (rest s)) /\
+  run blots_grammar fuel false a la (rd_body (grule_def PG_null)) s = pure_out grule s (null_rule null_boundary (rest s)) /\
+  run blots_grammar fuel false a la (Ident PG_identifier_rest) s = pure_out grule s (identifier_rest (rest s)) /\
+  run blots_grammar fuel false a la (Ident PG_reserved_word) s = pure_out grule s (first_lit reserved_words (rest s)).
+Print Assumptions C10_peg_word_rules.
+
+(* (b3) C10_ident_rule over the grammar text: a plain name that is not a reserved word, followed by
+   something that cannot continue a name, is rejected by `bool` and by `null` and read whole by
+   `identifier` (so reserved words are the only plain names the rule refuses: see the Examples). *)
+Theorem C10_peg_plain_name_is_identifier : forall a, a <> NonAtomic -> exists n, forall name after fuel la s,
+  valid_name name = true -> is_reserved reserved_words name = false -> boundary after = true ->
+  rest s = (name ++ after)%string -> n + String.length (rest s) <= fuel ->
+  run blots_grammar fuel false a la (rd_body (grule_def PG_bool)) s = Fail s /\
+  run blots_grammar fuel false a la (rd_body (grule_def PG_null)) s = Fail s /\
+  call_with blots_grammar (run blots_grammar fuel) a la PG_identifier s
+  = rule_wrap PG_identifier a la (fun s' => Ok (set_pos s' (pos s' + slen name) after)) s.
+Proof. exact peg_plain_name_is_identifier. Qed.
+Check C10_peg_plain_name_is_identifier : forall a, a <> NonAtomic -> exists n, forall name after fuel la s,
+  valid_name name = true -> is_reserved reserved_words name = false -> boundary after = true ->
+  rest s = (name ++ after)%string -> n + String.length (rest s) <= fuel ->
+  run blots_grammar fuel false a la (rd_body (grule_def PG_bool)) s = Fail s /\
+  run blots_grammar fuel false a la (rd_body (grule_def PG_null)) s = Fail s /\
+  call_with blots_grammar (run blots_grammar fuel) a la PG_identifier s
+  = rule_wrap PG_identifier a la (fun s' => Ok (set_pos s' (pos s' + slen name) after)) s.
+Print Assumptions C10_peg_plain_name_is_identifier.
+
+(* every reserved word is rejected by the rule `identifier` when a boundary follows; `iffy` is a name *)
+Example peg_reserved_words_rejected :
+  forallb (fun w => match parse blots_grammar 200 PG_identifier (w ++ " + 1") with Fail _ => true | _ => false end)
+          reserved_words = true.
+Proof. vm_compute. reflexivity. Qed.
+Example peg_iffy_is_a_name :
+  show_res grule_name (parse blots_grammar 200 PG_identifier "iffy") = "OK (identifier 0 4)"%string.
+Proof. vm_compute. reflexivity. Qed.
+End PegLayer.
